@@ -4,6 +4,7 @@ CONSTANT K4 = 3
 CONSTANT K5 = 2
 CONSTANT DeepN = 3
 CONSTANT DeepK = 5
+CONSTANT DeepMinLinks = 0
 CONSTANT Mode = "machine"
 INIT Init
 NEXT Next
